@@ -256,6 +256,9 @@ def seek_history(rng, song, loop=False, loop_p=0.5):
     cands = [0] + ts + [(a + b) // 2 for a, b in zip(ts, ts[1:])] + [last + 500000, last + 1000000]
     if rng.random() < 0.4:
         h.append({"e": "PlayTicks", "steps": [], "max": 3000, "until": rng.choice(cands)})
+        if rng.random() < 0.25:
+            # a refused target in the middle of the song: position, sounding notes and what follows stay as they are
+            h.append({"e": "Seek", "us": rng.choice([-1, -1000000])})
     for _ in range(rng.choice([1, 1, 2, 3])):
         r = rng.random()
         if r < 0.08: h.append({"e": "Seek", "us": -1000000})
